@@ -77,3 +77,11 @@ Proof.
   cbv zeta. split; [repeat constructor|]. vm_compute. repeat split; reflexivity.
 Qed.
 Print Assumptions C06_client_order_example.
+
+(* ... and with storage commands failing during any of the requests (C08, Proofs/Recovery.v): the same invariant for the
+   acknowledged part of the store, [clean db] = the operation documents at or below the recorded end of their log *)
+From Orda.Proofs Require Import FaultFacts Recovery.
+Theorem C06_log_invariant_with_faults : forall rfs : list (request * option pfault),
+  LogInv (clean (fold_left fserve rfs sdb_init)).
+Proof. exact faulty_log_invariant. Qed.
+Print Assumptions C06_log_invariant_with_faults.
